@@ -4,4 +4,4 @@ From Coq Require Import ExtrOcamlBasic.
 From SV Require Import Lib.Bytes Lib.ExtractBase Model.HostsFile Gen.Consts.
 Extraction "c14_model.ml" extract_anchor step run_k rewrite_fs restore_fs hop_step run_sched
   fs_init fs_set fs_get start new_content marker marked_line norm_lines file_lines own_lines
-  kept_lines has_marker univ_nl dec sort_entries hm_set map_of is_final fs_fresh.
+  kept_lines has_marker univ_nl dec sort_entries hm_set map_of is_final fs_fresh hm_after hm_get last_addr utf8_ok rewrite_dec restore_dec.
